@@ -73,10 +73,11 @@ class TimeKeeper:
 
         logger.info("Initiating the timekeeper")
         self.modules = modules
-        if not start:
+        # A time is missing if None or empty, numpy.datetime64(0) is a time
+        if start is None or (isinstance(start, str) and not start):
             logger.critical("Missing start time")
             raise SystemExit(3)
-        if not stop:
+        if stop is None or (isinstance(stop, str) and not stop):
             logger.critical("Missinc stop time")
             raise SystemExit(3)
         if not dt:
@@ -88,6 +89,9 @@ class TimeKeeper:
         logger.info("  Model stop time: %s", self.stop_time)
 
         self.dt = normalize_period(dt)  # np.timedelta64(-,"s")
+        if self.dt <= np.timedelta64(0, "s"):
+            logger.critical("The time step, dt, must be positive")
+            raise SystemExit(3)
         self.time_reversal = time_reversal
         # self.time = self.start_time  # Running clock
         self.step = -1  # step before start
@@ -106,7 +110,7 @@ class TimeKeeper:
         self.min_time = min(self.start_time, self.stop_time)  # type: ignore
         self.max_time = max(self.start_time, self.stop_time)  # type: ignore
 
-        if reference:
+        if reference is not None and not (isinstance(reference, str) and not reference):
             self.reference_time = np.datetime64(reference, "s")
         else:
             self.reference_time = self.min_time
